@@ -117,7 +117,7 @@ package resource_division
 // phase 1 adds exactly that amount to every sibling (functional, hence independent of the map
 // iteration order), touches no other queue and no other resource.
 //@ func setDeservedResource
-//@   props C09x
+//@   props C09
 //@   requires validRes(resource) && queuesOK(queues) && keyedByUID(queues)
 //@   modifies family(queues[""].CPU.FairShare), family(queues[""].lastFairShare)
 //@   loop 1
@@ -145,16 +145,41 @@ package resource_division
 //@   ensures [equalOnlyIfSame] (result == 0) == (i == j)
 //@ end
 
+// Assumed contracts of the two generic library functions used by getQueuesByPriority (bodies are not
+// part of the verified program).
+//@ func golang.org/x/exp/maps.Keys
+//@   trusted
+//@   note library (golang.org/x/exp/maps): "Keys returns the keys of the map m. The keys will be in an indeterminate order." New slice, one element per key, nothing else written.
+//@   fresh
+//@   ensures [oneElementPerKey] len(result) == len(arg0)
+//@   ensures [elementsAreKeys] forall i in result :: result[i] in arg0
+//@   ensures [everyKeyListed] forall k in arg0 :: exists i in result :: result[i] == k
+//@   ensures [noDuplicates] forall i in result :: forall j in result :: i != j ==> result[i] != result[j]
+//@ end
+
+// sortCmp abstracts "the cmp argument of slices.SortFunc" (function values cannot be called in specs). The
+// only SortFunc call of this package passes getQueuesByPriority$1, whose proved contract is result == j - i.
+//@ declare sortCmp(a int, b int) int
+//@ axiom forall a int, b int :: sortCmp(a, b) == b - a
+//@ func slices.SortFunc
+//@   trusted
+//@   note library (slices): "SortFunc sorts the slice x in ascending order as determined by the cmp function" (cmp(a,b) < 0 when a must come before b; requires a strict weak ordering, proved for the comparator getQueuesByPriority$1). In-place permutation of the elements.
+//@   modifies arg0[*]
+//@   ensures [sameLength] len(arg0) == old(len(arg0))
+//@   ensures [onlyOldElements] forall i in arg0 :: exists j in arg0 :: arg0[i] == old(arg0[j])
+//@   ensures [allOldElements] forall j in arg0 :: exists i in arg0 :: arg0[i] == old(arg0[j])
+//@   ensures [noNewDuplicates] forall i in arg0 :: forall j in arg0 :: i != j && arg0[i] == arg0[j] ==> exists i2 in arg0 :: exists j2 in arg0 :: i2 != j2 && old(arg0[i2]) == old(arg0[j2])
+//@   ensures [sorted] forall i in arg0 :: forall j in arg0 :: i < j ==> sortCmp(arg0[j], arg0[i]) >= 0
+//@ end
+
 // grouping of the siblings by priority is a partition of the input map (functional => independent of
 // the map iteration order); the priority list is the key set of the partition, sorted descending.
 //@ func getQueuesByPriority
 //@   props C09
-//@   trusted
-//@   note outside the subset: calls the generic library functions golang.org/x/exp/maps.Keys and slices.SortFunc, which govc does not model (they havoc the heap). With 'trusted' removed every obligation of the grouping loop (entry, preservation, no-panic) is discharged with the invariants below; only the post-state after the two library calls is assumed. The comparator passed to SortFunc is proved separately (getQueuesByPriority$1).
 //@   requires forall k in queues :: queues[k] != nil
 //@   loop 1
 //@     invariant queuesByPriority != nil && fresh(queuesByPriority)
-//@     invariant forall k common_info.QueueID :: (k in queues) == old(k in queues) && queues[k] == old(queues[k])
+//@     invariant forall m map[common_info.QueueID]*rs.QueueAttributes :: forall k common_info.QueueID :: m != nil && !fresh(m) ==> (k in m) == old(k in m) && m[k] == old(m[k])
 //@     invariant forall k in visited :: k in queues
 //@     invariant forall p in queuesByPriority :: queuesByPriority[p] != nil && fresh(queuesByPriority[p]) && allocated(queuesByPriority[p])
 //@     invariant forall p in queuesByPriority :: forall p2 in queuesByPriority :: p != p2 ==> queuesByPriority[p] != queuesByPriority[p2]
@@ -168,7 +193,8 @@ package resource_division
 //@   ensures [noEmptyGroup] forall p in result0 :: exists k in result0[p] :: true
 //@   ensures [prioritiesAreGroupKeys] forall i in result1 :: result1[i] in result0
 //@   ensures [everyGroupListed] forall p in result0 :: exists i in result1 :: result1[i] == p
-//@   ensures [strictlyDescending] forall i in result1 :: forall j in result1 :: i < j ==> result1[i] > result1[j]
+//@   ensures [descending] forall i in result1 :: forall j in result1 :: i < j ==> result1[i] >= result1[j]
+//@   ensures [noDuplicatePriority] forall i in result1 :: forall j in result1 :: i != j ==> result1[i] != result1[j]
 //@ end
 
 // ---- phase 3: remainder hand-out order ---------------------------------------
